@@ -1,2 +1,372 @@
-// Package c16: check for property C16 (see /verif/DESIGN.md §3 C16).
+// Package c16: time conversion functions agree with the Gregorian / IANA
+// calendar (property C16, DESIGN §3 C16).
+//
+// Engine E2: bounded exhaustive enumeration of instants x functions x formats
+// x zones on the real BIFs (direct calls), each case compared with
+//   - civil.go: proleptic-Gregorian civil-from-days / days-from-civil in
+//     integer arithmetic (no use of Go's time package), for everything GMT;
+//   - harness/pyref/tzref.py: Python 3 zoneinfo on the system tzdata, one
+//     batch subprocess per worker shard, for everything zone-dependent;
+//   - laws on the real code on both sides (strptime(strftime(t,f),f)==t,
+//     dhms inverse pairs, verb == function, TZ mechanism == explicit zone
+//     argument).
 package c16
+
+import (
+	"fmt"
+	"math"
+	"os"
+	"os/exec"
+	"path/filepath"
+	"sort"
+	"strings"
+	"sync"
+
+	"github.com/johnkerl/miller/v6/pkg/mlrval"
+
+	"verif/harness/vf"
+)
+
+func init() {
+	vf.Register(&vf.CheckDef{ID: "C16", Level: "model_checking", Run: run,
+		Workers: map[string]vf.WorkerFunc{
+			"days":     daysWorker,
+			"seconds":  secondsWorker,
+			"frac":     fracWorker,
+			"formats":  formatsWorker,
+			"dhms":     dhmsWorker,
+			"datediff": datediffWorker,
+			"zone":     zoneWorker,
+			"bind":     bindWorker,
+		}})
+}
+
+// ---------------------------------------------------------------- shared helpers
+
+type M = mlrval.Mlrval
+
+func mi(v int64) *M   { return mlrval.FromInt(v) }
+func mf(v float64) *M { return mlrval.FromFloat(v) }
+func ms(v string) *M  { return mlrval.FromString(v) }
+
+// show describes a result value for messages.
+func show(m *M) string {
+	if m == nil {
+		return "<nil>"
+	}
+	switch m.Type() {
+	case mlrval.MT_ERROR:
+		return "(error)"
+	case mlrval.MT_INT:
+		v, _ := m.GetIntValue()
+		return fmt.Sprintf("%d", v)
+	case mlrval.MT_FLOAT:
+		v, _ := m.GetFloatValue()
+		return fmt.Sprintf("%v (float)", v)
+	case mlrval.MT_ABSENT:
+		return "(absent)"
+	}
+	return fmt.Sprintf("%q", m.String())
+}
+
+// numEq: m is a number equal to the integer t (|t| < 2^53 everywhere here).
+func numEq(m *M, t int64) bool {
+	switch m.Type() {
+	case mlrval.MT_INT:
+		v, _ := m.GetIntValue()
+		return v == t
+	case mlrval.MT_FLOAT:
+		v, _ := m.GetFloatValue()
+		return v == float64(t)
+	}
+	return false
+}
+
+// intEq: m is the int v (documented "integer nanoseconds").
+func intEq(m *M, v int64) bool {
+	if m.Type() != mlrval.MT_INT {
+		return false
+	}
+	g, ok := m.GetIntValue()
+	return ok && g == v
+}
+
+func isNum(m *M) bool { t := m.Type(); return t == mlrval.MT_INT || t == mlrval.MT_FLOAT }
+
+// kit bundles the worker with cheap local hit counters.
+type kit struct {
+	w   *vf.Worker
+	cnt map[string]int64
+}
+
+func newKit(w *vf.Worker) *kit { return &kit{w: w, cnt: map[string]int64{}} }
+func (k *kit) hit(name string)  { k.cnt[name]++; k.w.Eval(1) }
+func (k *kit) note(name string) { k.cnt[name]++ }
+func (k *kit) flush() {
+	for n, v := range k.cnt {
+		k.w.Count(n, v)
+	}
+}
+
+// bad records a violation: key fn(arg,class); what carries the concrete call.
+func (k *kit) bad(fn, arg, class, call, got, exp string) {
+	key := fn + "(" + arg
+	if class != "" {
+		if arg != "" {
+			key += ","
+		}
+		key += class
+	}
+	key += ")"
+	report(k.w, key, fmt.Sprintf("%s = %s, expected %s", call, got, exp),
+		map[string]any{"function": fn, "call": call, "got": got, "expected": exp, "class": class,
+			"reproduce": "mlr -n put 'end{print " + call + "}'"})
+}
+
+// report records a violation (and, as a debugging aid, appends the first 5 per key and worker process to $VERIF_C16_DUMP, without the framework's per-group cap).
+var dumpSeen = map[string]int{}
+
+func report(w *vf.Worker, key, what string, replay any) {
+	if f := os.Getenv("VERIF_C16_DUMP"); f != "" && dumpSeen[key] < 5 {
+		dumpSeen[key]++
+		if fh, err := os.OpenFile(f, os.O_APPEND|os.O_CREATE|os.O_WRONLY, 0644); err == nil {
+			fmt.Fprintf(fh, "%s\t%s\n", key, strings.ReplaceAll(what, "\n", "\\n"))
+			fh.Close()
+		}
+	}
+	w.Violation(key, what, replay)
+}
+
+const (
+	minT = -62135596800 // 0001-01-01T00:00:00Z
+	maxT = 253402300799 // 9999-12-31T23:59:59Z
+	// whole seconds whose nanosecond count fits int64
+	minNsT = -9223372036
+	maxNsT = 9223372036
+)
+
+func nsRep(t int64) bool { return t >= minNsT && t <= maxNsT }
+
+// era classifies an instant for violation keys (the classes are the ranges in
+// which the anchored code takes different paths: int64-nanosecond
+// representability, |t| < 2^32 where float64(nanoseconds)/1e9 is still exact
+// to the second, and the sign of the epoch).
+func era(t int64) string {
+	switch {
+	case t < minNsT:
+		return "0001..1677"
+	case t < -(1 << 32):
+		return "1677..1833"
+	case t < 0:
+		return "1833..1969"
+	case t < 1<<32:
+		return "1970..2106"
+	case t <= maxNsT:
+		return "2106..2262"
+	}
+	return "2262..9999"
+}
+
+func q(s string) string { return `"` + s + `"` }
+
+// ---------------------------------------------------------------- python reference plumbing
+
+func pyScript() string { return filepath.Join(vf.Root, "harness", "pyref", "tzref.py") }
+
+// pyBatch runs the reference once over a request file and returns the answer lines.
+func pyBatch(requests []byte) ([]string, error) {
+	dir := "/dev/shm"
+	if _, err := os.Stat(dir); err != nil {
+		dir = os.TempDir()
+	}
+	in, err := os.CreateTemp(dir, "verif-c16-req-")
+	if err != nil {
+		return nil, err
+	}
+	defer os.Remove(in.Name())
+	if _, err := in.Write(requests); err != nil {
+		return nil, err
+	}
+	in.Seek(0, 0)
+	cmd := exec.Command("python3", pyScript(), "batch")
+	cmd.Stdin = in
+	cmd.Env = append(os.Environ(), "PYTHONHASHSEED=0")
+	var eb strings.Builder
+	cmd.Stderr = &eb
+	out, err := cmd.Output()
+	in.Close()
+	if err != nil {
+		return nil, fmt.Errorf("python3 tzref.py batch: %v: %s", err, eb.String())
+	}
+	lines := strings.Split(strings.TrimRight(string(out), "\n"), "\n")
+	return lines, nil
+}
+
+// ---------------------------------------------------------------- orchestrator
+
+var zoneList = []string{"Asia/Kolkata", "Asia/Kathmandu", "America/Sao_Paulo", "America/New_York", "Europe/London",
+	"Australia/Lord_Howe", "Pacific/Apia", "Africa/Casablanca", "Asia/Istanbul", "UTC"}
+
+const (
+	zoneLo = -2208988800 // 1900-01-01T00:00:00Z
+	zoneHi = 2145916800  // 2038-01-01T00:00:00Z
+)
+
+type zoneArgs struct {
+	TransitionsFile string `json:"transitions_file"`
+}
+
+func run(c *vf.Ctx) {
+	c.Rule = "every enumerated (function, instant, format/decimals, zone) tuple is compared with an independent reference (integer civil-from-days for GMT, Python zoneinfo for zones) or a law on the real code; " +
+		"instants: every day of the year range x {00:00:00,12:00:00,23:59:59}, every second of +-36 h windows around calendar boundaries, every second of a window around every tz transition 1900-2037 of 10 zones, " +
+		"fractional seconds/nanoseconds x 0..9 decimals, all integers of a range for the d/h/m/s family, all pairs of a date set for datediff. distinct_nontrivial = number of distinct (function, argument tuple) evaluations that were compared with an expectation (all tuples are distinct by construction)"
+	c.Assume("years outside 0001..9999 are not explored (the property's range); leap seconds are not modelled by either side (Unix time)")
+	c.Assume("float inputs: the exact binary value of the double is the instant; with n decimals the text may be floor or round-half-up of that value to n decimals, evaluated with a slack of one ulp (or 2^-52 s) on the input: the documentation does not say truncate or round")
+	c.Assume("sec2gmtdate/%s on negative fractional floats: floor and truncation toward zero are both accepted ('integer part' in the help text)")
+	c.Assume("strptime %s is not in the documented strptime format table (reference-dsl-time.md): not asserted, only counted")
+	c.Assume("strpntime/gmt2nsec/nsec* are only asserted where the nanosecond count fits int64 (1677-09-21..2262-04-11); outside, counted as unrepresentable")
+	c.Assume("%y round trips only for years 1969..2068 (POSIX pivot); %z is not asserted for UTC offsets that are not whole minutes (pre-1920 local mean times)")
+	c.Assume("DST gaps: a wall-clock text that does not exist in the zone must yield a number or an error (documentation fixes no resolution); DST overlaps: either of the two valid instants is accepted")
+	c.Assume("zones: the 10 zones of the design between 1900 and 2037; transitions are located by probing zoneinfo every 6 h and bisecting (two transitions within 6 h that cancel exactly would be missed)")
+	c.Assume("datediff: units m/y/ym when the end day-of-month is below the start day and is the last day of its month, md when the end day is below the start day, yd/y with a Feb-29 start: the documentation does not fix the borrow convention, counted as unconstrained")
+	c.Assume("fsec2hms/fsec2dhms may print a seconds field of 60.000000 when the fraction rounds up; the property only requires the inverse to agree within 1e-6, so this is counted, not asserted")
+
+	if _, err := exec.LookPath("python3"); err != nil {
+		c.Broken("python3 not found: %v", err)
+		return
+	}
+
+	// zone transition tables from the reference, one subprocess per zone in parallel
+	trFile, err := scanTransitions()
+	if err != nil {
+		c.Broken("tzref.py transitions failed: %v", err)
+		return
+	}
+	defer os.Remove(trFile)
+
+	sets := map[string]map[string]bool{}
+	merge := func(r *vf.PoolResult) {
+		for k, m := range r.Sets {
+			if sets[k] == nil {
+				sets[k] = map[string]bool{}
+			}
+			for s := range m {
+				sets[k][s] = true
+			}
+		}
+	}
+	only := os.Getenv("VERIF_C16_ONLY") // debugging aid: comma list of workers
+	want := func(n string) bool { return only == "" || strings.Contains(","+only+",", ","+n+",") }
+	if want("days") {
+		merge(c.RunPool(vf.PoolSpec{Worker: "days", Shards: 128}))
+	}
+	if want("seconds") {
+		merge(c.RunPool(vf.PoolSpec{Worker: "seconds", Shards: 128}))
+	}
+	if want("frac") {
+		merge(c.RunPool(vf.PoolSpec{Worker: "frac", Shards: 32}))
+	}
+	if want("formats") {
+		merge(c.RunPool(vf.PoolSpec{Worker: "formats", Shards: 64}))
+	}
+	if want("dhms") {
+		merge(c.RunPool(vf.PoolSpec{Worker: "dhms", Shards: 32}))
+	}
+	if want("datediff") {
+		merge(c.RunPool(vf.PoolSpec{Worker: "datediff", Shards: 64}))
+	}
+	if want("zone") {
+		merge(c.RunPool(vf.PoolSpec{Worker: "zone", Shards: 96, Args: zoneArgs{TransitionsFile: trFile}}))
+	}
+	if want("bind") {
+		merge(c.RunPool(vf.PoolSpec{Worker: "bind", Shards: 16, Args: zoneArgs{TransitionsFile: trFile}}))
+	}
+
+	c.DistinctNontrivial = c.Evaluations
+	// per-symbol hit counts
+	hits := map[string]int64{}
+	for k, v := range c.Counters {
+		if strings.HasPrefix(k, "fn:") || strings.HasPrefix(k, "code:") || strings.HasPrefix(k, "zone:") || strings.HasPrefix(k, "verbflag:") || strings.HasPrefix(k, "tzmech:") || strings.HasPrefix(k, "unit:") {
+			hits[k] = v
+		}
+	}
+	c.Extra["hits"] = hits
+	for _, s := range []string{"outcomes", "formats-roundtrip", "zones", "transition-kinds"} {
+		if m := sets[s]; m != nil {
+			var l []string
+			for k := range m {
+				l = append(l, k)
+			}
+			sort.Strings(l)
+			if len(l) > 80 {
+				c.Extra["distinct_"+s+"_count"] = len(l)
+				l = l[:80]
+			}
+			c.Extra["distinct_"+s] = l
+		}
+	}
+	if only == "" {
+		// vacuity guard: every function of the time class that the property names must have been exercised
+		for _, fn := range []string{"sec2gmt", "sec2gmt/2", "sec2gmtdate", "nsec2gmt", "nsec2gmt/2", "nsec2gmtdate", "strftime", "strfntime", "strptime", "strpntime", "gmt2sec", "gmt2nsec",
+			"sec2localtime/1", "sec2localtime/2", "sec2localtime/3", "nsec2localtime/1", "nsec2localtime/3", "sec2localdate/1", "sec2localdate/2", "nsec2localdate/1", "nsec2localdate/2",
+			"strftime_local/2", "strftime_local/3", "strfntime_local/2", "strfntime_local/3", "strptime_local/2", "strptime_local/3", "strpntime_local/2", "strpntime_local/3",
+			"localtime2sec/1", "localtime2sec/2", "localtime2nsec/1", "localtime2nsec/2", "gmt2localtime/1", "gmt2localtime/2", "localtime2gmt/1", "localtime2gmt/2",
+			"sec2dhms", "fsec2dhms", "sec2hms", "fsec2hms", "dhms2sec", "dhms2fsec", "hms2sec", "hms2fsec", "datediff", "verb:sec2gmt", "verb:sec2gmtdate"} {
+			if c.Counters["fn:"+fn] == 0 {
+				c.Broken("vacuity: function %s was never exercised", fn)
+			}
+		}
+		for _, z := range zoneList {
+			if c.Counters["zone:"+z] == 0 {
+				c.Broken("vacuity: zone %s was never exercised", z)
+			}
+		}
+	}
+	_ = math.Abs
+}
+
+// scanTransitions runs tzref.py transitions for every zone in parallel and
+// merges the JSON objects into one file.
+func scanTransitions() (string, error) {
+	type res struct {
+		zone string
+		out  []byte
+		err  error
+	}
+	var wg sync.WaitGroup
+	results := make([]res, len(zoneList))
+	for i, z := range zoneList {
+		wg.Add(1)
+		go func(i int, z string) {
+			defer wg.Done()
+			cmd := exec.Command("python3", pyScript(), "transitions", fmt.Sprint(zoneLo), fmt.Sprint(zoneHi), z)
+			out, err := cmd.Output()
+			results[i] = res{z, out, err}
+		}(i, z)
+	}
+	wg.Wait()
+	var parts []string
+	for _, r := range results {
+		if r.err != nil {
+			return "", fmt.Errorf("%s: %v", r.zone, r.err)
+		}
+		s := strings.TrimSpace(string(r.out))
+		if len(s) < 2 || s[0] != '{' {
+			return "", fmt.Errorf("%s: unexpected output %q", r.zone, s)
+		}
+		parts = append(parts, s[1:len(s)-1])
+	}
+	dir := "/dev/shm"
+	if _, err := os.Stat(dir); err != nil {
+		dir = os.TempDir()
+	}
+	f, err := os.CreateTemp(dir, "verif-c16-transitions-")
+	if err != nil {
+		return "", err
+	}
+	defer f.Close()
+	if _, err := f.WriteString("{" + strings.Join(parts, ",") + "}\n"); err != nil {
+		return "", err
+	}
+	return f.Name(), nil
+}
